@@ -81,6 +81,16 @@ const (
 
 type methodSet map[string]*ssa.Function
 
+type fnMeta struct {
+	name     string
+	depInit  bool
+	inModule bool
+	touched  bool
+	ext      externalFn
+}
+
+var fnMetas = map[*ssa.Function]*fnMeta{}
+
 // State shared between all interpreted goroutines.
 type interpreter struct {
 	osArgs             []value                // the value of os.Args
@@ -262,7 +272,13 @@ func visitInstr(fr *frame, instr ssa.Instruction) continuation {
 		fr.runDefers()
 
 	case *ssa.Panic:
-		panic(targetPanic{fr.get(instr.X)})
+		pv := fr.get(instr.X)
+		if ifc, ok := pv.(iface); ok {
+			if str, ok := ifc.v.(string); ok && str == "symgo: stripped function body" {
+				panic(unsupported("call of a dependency function whose body is not loaded: " + fr.fn.String()))
+			}
+		}
+		panic(targetPanic{pv})
 
 	case *ssa.Send:
 		fr.get(instr.Chan).(chan value) <- fr.get(instr.X)
@@ -536,11 +552,20 @@ func callSSA(i *interpreter, caller *frame, callpos token.Pos, fn *ssa.Function,
 		fn:     fn,
 	}
 	if fn.Parent() == nil {
-		name := fn.String()
-		if fn.Name() == "init" && fn.Pkg != nil && fn.Signature.Recv() == nil && !strings.HasPrefix(fn.Pkg.Pkg.Path(), ModulePrefix) {
+		meta := fnMetas[fn]
+		if meta == nil {
+			meta = &fnMeta{name: fn.String()}
+			meta.depInit = fn.Name() == "init" && fn.Pkg != nil && fn.Signature.Recv() == nil && !strings.HasPrefix(fn.Pkg.Pkg.Path(), ModulePrefix)
+			meta.inModule = fn.Pkg != nil && strings.HasPrefix(fn.Pkg.Pkg.Path(), ModulePrefix)
+			meta.ext = externals[meta.name]
+			fnMetas[fn] = meta
+		}
+		name := meta.name
+		if meta.depInit {
 			return nil // dependency initialisers are not executed
 		}
-		if fn.Pkg != nil && strings.HasPrefix(fn.Pkg.Pkg.Path(), ModulePrefix) {
+		if meta.inModule && !meta.touched {
+			meta.touched = true
 			if _, ok := touched[name]; !ok {
 				n := 0
 				for _, b := range fn.Blocks {
@@ -553,14 +578,18 @@ func callSSA(i *interpreter, caller *frame, callpos token.Pos, fn *ssa.Function,
 				touched[name] = FuncInfo{Name: name, Instrs: n, File: file}
 			}
 		}
-		if ext := externals[name]; ext != nil {
-			if i.mode&EnableTracing != 0 {
-				fmt.Fprintln(os.Stderr, "\t(external)")
-			}
+		if ext := meta.ext; ext != nil {
 			return ext(fr, args)
 		}
+		if fn.Blocks == nil && fn.Pkg != nil {
+			fn.Pkg.Build() // dependency packages are built on first use
+		}
 		if fn.Blocks == nil {
-			panic("no code for function: " + name)
+			panic(unsupported("no code for function: " + name))
+		}
+	} else if fn.Blocks == nil {
+		if p := fn.Parent(); p != nil && p.Pkg != nil {
+			p.Pkg.Build()
 		}
 	}
 
